@@ -1200,7 +1200,7 @@ PROPS = {
     "C02": dict(module="FV.Props.C02Accept", theorems=["FV.Props.C02_view_within", "FV.Props.C02_truncation_validates", "FV.Props.C02_deep_read_total", "FV.Props.C02_content_consistent", "FV.Props.C02_content_well_typed", "FV.Props.C02_gate", "FV.Props.C02_fields_accept_iff", "FV.Props.C02_vec_accepts_iff", "FV.Props.C02_str_accepts_iff", "FV.Props.C02_enum_accepts_iff", "FV.Props.C02_flex_accepts_iff", "FV.Props.C02_own_bytes_validate", "FV.Ty.sizeView"], suites=["bytes"], proj=proj_C02, oracle=oracle_C02),
     "C04": dict(module="FV.Props.C04", theorems=["FV.Props.C04_view_fits", "FV.Props.C04_ceil_least", "FV.Props.C04_floor_greatest", "FV.Props.C04_positions_eq_c", "FV.Props.C04_struct_size_eq_c", "FV.Props.C04_enum_data_offset_eq_c", "FV.Props.C04_vec_data_offset_eq_c"], suites=["bytes"], proj=proj_C04, oracle=oracle_C04),
     "C05": dict(module="FV.Props.C05", theorems=["FV.Props.C05_size_exact", "FV.Props.C05_truncation_same_content"], suites=["bytes", "emplace", "ops"], proj=proj_C05, oracle=oracle_C05),
-    "C03": dict(module="FV.Props.C03Full", theorems=["FV.Props.C03_emplace_reads_back", "FV.Props.C03_portable_image_is_serialisation", "FV.Props.C03_emplace_validates_partial", "FV.Props.C03_large_enough_is_accepted", "FV.Props.C03_struct_fields_at_c_offsets", "FV.Props.C03_assign_reads_back", "FV.Props.C03_enum_tag_and_fields_at_c_offsets", "FV.Props.C03_enum_unsized_variant_image", "FV.Props.C03_vec_from_iterator", "FV.emplaceU_ok", "FV.emplaceU_content", "FV.emplaceU_acc", "FV.repB_iff", "FV.flexFill_spec", "FV.flexFill_content"], suites=["emplace"], proj=proj_C03, oracle=oracle_C03),
+    "C03": dict(module="FV.Props.C03Full", theorems=["FV.Props.C03_emplace_reads_back", "FV.Props.C03_portable_image_is_serialisation", "FV.Props.C03_emplace_validates_partial", "FV.Props.C03_large_enough_is_accepted", "FV.Props.C03_struct_fields_at_c_offsets", "FV.Props.C03_assign_reads_back", "FV.Props.C03_enum_tag_and_fields_at_c_offsets", "FV.Props.C03_enum_unsized_variant_image", "FV.Props.C03_vec_from_iterator", "FV.emplaceU_ok", "FV.emplaceU_content", "FV.emplaceU_acc", "FV.repB_iff", "FV.flexFill_spec", "FV.flexFill_content", "FV.Props.C03_emplaced_content_well_typed"], suites=["emplace"], proj=proj_C03, oracle=oracle_C03),
     "C15": dict(module="FV.Props.C15", theorems=["FV.Props.C15_emplace_total", "FV.Props.C15_accepts_iff_fits", "FV.Props.C15_vec_accepts_iff_fits", "FV.emplaceU_acc", "FV.flexFill_acc", "FV.repB_iff"], suites=["emplace"], proj=proj_C15, oracle=oracle_C15, post=post_C15),
     "C18": dict(module="FV.Props.C18", theorems=["FV.Props.C18_vec_from_iterator_partial", "FV.Props.C18_flex_from_iterator_partial", "FV.Props.C18_nested_enum_counterexample", "FV.Props.C18_failed_assign_leaves_valid", "FV.emplaceU_gsafe", "FV.emplaceU_assign_valid", "FV.own_bytes_validate"], suites=["emplace"], proj=proj_C18, oracle=oracle_C18),
     "C20": dict(module="FV.Props.C20", theorems=["FV.Props.C20_vec_default_partial", "FV.Props.C20_default_valid_partial", "FV.Props.C20_default_content", "FV.Props.C20_str_default_partial", "FV.Props.C20_flex_default_partial", "FV.Props.C20_default_size", "FV.Props.C20_empty_always_accepted"], suites=["emplace"], proj=proj_C20, oracle=oracle_C20, post=post_C20),
